@@ -6,6 +6,7 @@ code -> spec : ChopFile / Copy / ChunkStream over a gated fault-injecting store 
 """
 import os, json
 import vlib
+from checks import cli_common
 from checks import pipeline_common as pc
 
 
@@ -23,6 +24,8 @@ def run(rep, tier, seed):
     pc.drive(rep, work, binp, seed, 80 if thorough else 25, "clean,fault1,fault2", "chop,copy,stream", 60 if thorough else 24)
     if thorough:
         pc.drive(rep, work, binp, seed + 500, 15, "clean,fault1,fault2", "chop,copy,stream", 40, big=True, tag="big")
+    # the command glue: the real binary end to end, judged by CliOutcome.tla
+    cli_common.run(rep, vlib.workdir("C06-cli"), seed, "fault", tier == "thorough")
     rep.rule = ("case = generated input (blocks from a 1-3 element alphabet: many duplicate chunks; repeating data through the real "
                 "chunker for ChunkStream; some chop inputs that do not belong to the index; some IDs pre-stored) x 1-3 workers x "
                 "fault plan (none, every single k-th store call, sampled pairs) x random/PCT schedule; distinct = different event "
@@ -33,6 +36,11 @@ def run(rep, tier, seed):
 
 
 def replay(path):
+    import json as _json
+    _d = _json.load(open(path))
+    _r = cli_common.replay_if_cli(_d, vlib.workdir("C06-cli-replay"))
+    if _r is not None:
+        return _r
     d = json.load(open(path))
     work = vlib.workdir("C06-replay")
     f = os.path.join(work, "trace.ndjson")
